@@ -6,7 +6,7 @@ use crate::util::*;
 use proptest::prelude::*;
 use serde::{Deserialize, Serialize};
 use serde_json::json;
-use text2num::find_numbers;
+use text2num::{find_numbers, LangInterpreter};
 
 #[derive(Clone, Debug, Hash, Serialize, Deserialize)]
 pub struct Case {
@@ -110,7 +110,7 @@ impl Property for C06 {
         "C06"
     }
     fn rule(&self) -> String {
-        "Generated: (language, text, threshold, hint bytes) from the clean and dirty sentence generators, biased so that ordinal forms, the decimal separator and digit words occur next to each other (the shapes that can produce ill-formed texts), plus arbitrary unicode. For the occurrences reported (a) through the tokenizer+annotation pipeline and (b) on an own-token stream with random separation / not-a-number hints, the validity predicate of the statement is asserted: span inside the stream, non-empty, strictly increasing and disjoint, first and last token are word tokens, no flagged token inside, text matches DIGITS (MARK DIGITS)? MARKER? with the language's decimal mark and ordinal-marker set (or 1/DIGITS for Spanish), value bit-equal to the numeric reading of the text, is_ordinal <=> marker present. Non-trivial = distinct cases with >= 2 occurrences or an occurrence that is ordinal, decimal, has leading zeros or >= 16 digits.".into()
+        "Generated: (language, text, threshold, hint bytes) from the clean and dirty sentence generators, biased so that ordinal forms, the decimal separator and digit words occur next to each other (the shapes that can produce ill-formed texts), plus arbitrary unicode. For the occurrences reported (a) through the tokenizer+annotation pipeline and (b) on an own-token stream with random separation / not-a-number hints, the validity predicate of the statement is asserted: span inside the stream, non-empty, strictly increasing and disjoint, first and last token are word tokens, no flagged token inside, text matches DIGITS (MARK DIGITS)? MARKER? with the language's decimal mark and ordinal-marker set (or 1/DIGITS for Spanish), value bit-equal to the numeric reading of the text, is_ordinal <=> marker present; for non-decimal occurrences the digits of the text equal the rendering of the public digit builder that exec_group returns for the span's words (exact digits beyond float precision). Non-trivial = distinct cases with >= 2 occurrences or an occurrence that is ordinal, decimal, has leading zeros or >= 16 digits.".into()
     }
     fn assumptions(&self) -> Vec<String> {
         vec!["the per-language ordinal marker sets are those the library documents/emits today (en st nd rd th ths rds; fr er ère ers ères ème èmes; de '.'; nl e; it º ª; es º ª ᵒˢ ᵃˢ .ᵉʳ; pt º ª ᵒˢ ᵃˢ)".into()]
@@ -141,6 +141,21 @@ impl Property for C06 {
         let texts: Vec<&str> = t.iter().map(|x| x.text.as_str()).collect();
         let nan: Vec<bool> = t.iter().map(|x| x.nan).collect();
         let i1 = wellformed(&c.lang, &texts, &nan, &o, obs).map_err(|e| format!("{} (text {:?}, th={}, occurrences {:?})", e, c.text, fmt_th(c.th_bits), o))?;
+        // exact digits: for a non-decimal occurrence the digits of its text are those of the public digit builder
+        // obtained by running the span's words as a group (text formatting must not go through the float value)
+        for oc in &o {
+            if let Ok(num) = parse_numeral(&c.lang, &oc.text) {
+                if num.frac.is_none() && oc.end <= t.len() {
+                    let lower: Vec<String> = t[oc.start..oc.end].iter().filter(|x| is_word(&x.text)).map(|x| x.lowercase.clone()).collect();
+                    if let Ok(b) = lg.exec_group(lower.iter().map(|x| x.as_str())) {
+                        if b.to_string() != num.int {
+                            return Err(format!("the occurrence text {:?} does not carry the exact digits {:?} that the digit builder holds for the words {:?} (text {:?})", oc.text, b.to_string(), lower.join(" "), c.text));
+                        }
+                        obs.label("exact-digits-checked");
+                    }
+                }
+            }
+        }
         // (b) own tokens with hints
         let mut stream: Vec<Tk> = t.iter().enumerate().map(|(i, x)| Tk::new(i, &x.text)).collect();
         let hinted = apply_hints(&mut stream, &c.hints);
